@@ -5,7 +5,7 @@ from hypothesis import strategies as st
 from .. import gen, ref
 from ..core import Clause, Out, Property
 from ..env import L
-from ..lib import F, Q, ahash
+from ..lib import F, Q, ahash, case_flag
 
 U_ = ref.U
 C_ORTH = 500.0
@@ -127,11 +127,23 @@ def check_rsvd(case):
     np.random.seed(case["seed"])
     if algo == "rand_qsvd":
         site = "rand_qsvd"
-        ok, r = out.call(site, L.qsvd.rand_qsvd, Aq, R, oversample=P, n_iter=case["n_iter"])
+        if P == 10 and case["n_iter"] == 2:
+            ok, r = out.call(site, L.qsvd.rand_qsvd, Aq, R)                       # the documented defaults, not spelled out
+            out.label("default_call_form")
+        elif case_flag(A, 3):
+            ok, r = out.call(site, L.qsvd.rand_qsvd, Aq, R, P, case["n_iter"])     # positional form
+        else:
+            ok, r = out.call(site, L.qsvd.rand_qsvd, Aq, R, oversample=P, n_iter=case["n_iter"])
         out.label(f"n_iter={case['n_iter']}")
     else:
         site = "pass_eff_qsvd"
-        ok, r = out.call(site, L.qsvd.pass_eff_qsvd, Aq, R, oversample=P, n_passes=case["n_passes"])
+        if P == 10 and case["n_passes"] == 2:
+            ok, r = out.call(site, L.qsvd.pass_eff_qsvd, Aq, R)
+            out.label("default_call_form")
+        elif case_flag(A, 3):
+            ok, r = out.call(site, L.qsvd.pass_eff_qsvd, Aq, R, P, case["n_passes"])
+        else:
+            ok, r = out.call(site, L.qsvd.pass_eff_qsvd, Aq, R, oversample=P, n_passes=case["n_passes"])
         out.label(f"n_passes={case['n_passes']}")
     if not ok:
         return out
